@@ -837,3 +837,61 @@ pub fn replay_main(engine_of: &dyn Fn(&str) -> Option<Box<dyn Engine>>, path: &s
 pub fn names(m: u32) -> String {
     mask_names(m)
 }
+
+
+/// `selftest determinism [K]`: for every property run indices 0..K once in a single process and
+/// once split over 16 processes and compare the per-run event-log digests.
+pub fn selftest_determinism(engine_of: &dyn Fn(&str) -> Option<Box<dyn Engine>>, k: u64) -> i32 {
+    let seed: u64 = std::env::var("VERIF_SEED").ok().and_then(|s| s.parse().ok()).unwrap_or(1);
+    let dir = scratch_dir();
+    let mut bad = 0u64;
+    let mut total = 0u64;
+    for n in 1..=18 {
+        let prop = format!("C{:02}", n);
+        let engine = match engine_of(&prop) {
+            Some(e) => e,
+            None => continue,
+        };
+        let kk = if prop == "C05" { (k / 25).max(8) } else { k };
+        let collect = |layout: &[(u64, u64)], tag: &str| -> Result<BTreeMap<u64, u64>, String> {
+            let children: Vec<Child> = layout.iter().map(|(s, c)| spawn_worker(engine.prop(), Tier::Quick, seed, *s, *c, &dir, tag, &["--recheck-every".into(), "1".into()])).collect();
+            let mut m = BTreeMap::new();
+            for c in children {
+                let out = c.child.wait_with_output().map_err(|e| e.to_string())?;
+                if !out.status.success() {
+                    return Err(format!("worker {}+{} failed", c.start, c.count));
+                }
+                let a: Acc = serde_json::from_str(String::from_utf8_lossy(&out.stdout).trim()).map_err(|e| e.to_string())?;
+                if !a.violations.is_empty() {
+                    return Err(format!("violation in selftest run {}", a.violations[0].run));
+                }
+                m.extend(a.recheck);
+                let _ = std::fs::remove_file(&c.digests_path);
+            }
+            Ok(m)
+        };
+        let one = collect(&[(0, kk)], "S1");
+        let per = (kk + 15) / 16;
+        let layout: Vec<(u64, u64)> = (0..16).map(|w| (w * per, per.min(kk.saturating_sub(w * per)))).filter(|b| b.1 > 0).collect();
+        let many = collect(&layout, "S16");
+        match (one, many) {
+            (Ok(a), Ok(b)) => {
+                let mism = a.iter().filter(|(i, d)| b.get(i) != Some(d)).count() as u64 + (a.len() as i64 - b.len() as i64).unsigned_abs();
+                total += a.len() as u64;
+                bad += mism;
+                println!("{}: {} runs executed twice (1 process vs 16 processes): {} digest mismatches", prop, a.len(), mism);
+            }
+            (Err(e), _) | (_, Err(e)) => {
+                println!("{}: selftest error: {}", prop, e);
+                bad += 1;
+            }
+        }
+    }
+    let _ = std::fs::remove_dir_all(&dir);
+    println!("determinism selftest: {} runs compared, {} mismatches", total, bad);
+    if bad == 0 {
+        0
+    } else {
+        2
+    }
+}
